@@ -5,7 +5,12 @@ import z3
 from .values import *
 from .symexec import Engine, Unsupported, NeedFork, Raised, Obligation, Path, Contract, parse_expr, on_raise_clauses
 from .exprs import ExprMixin, MUTATING_METHODS
-from .calls import CallMixin
+from .calls import CallMixin, SPEC_PRIMS as _SP
+SPEC_PRIM_NAMES = set(_SP)
+
+
+PURE_VALUE_METHODS = {"decode", "encode", "lower", "upper", "tobytes", "hex", "startswith", "endswith", "strip", "lstrip", "rstrip", "split",
+                      "join", "format", "partition", "isdigit", "to_bytes"}
 
 
 class Verifier(ExprMixin, CallMixin, Engine):
@@ -15,6 +20,7 @@ class Verifier(ExprMixin, CallMixin, Engine):
         self.cur_name = ""
         self.cur_decreases = None
         self.used_contracts = set()
+        self.skipped_hints = set()
         self.call_counts = {}
         self.cur_path_tag = None
         self.sink = []
@@ -242,6 +248,13 @@ class Verifier(ExprMixin, CallMixin, Engine):
 
     def st_Assign(self, st, p, module):
         v = self.ev(st.value, p, module)
+        if isinstance(v, VList) and v.items == [] and len(st.targets) == 1 and isinstance(st.targets[0], ast.Name):
+            c = self.contracts.get(self.cur_contract_key_stack[-1]) if self.cur_contract_key_stack else None
+            ann = c.local_types.get(st.targets[0].id) if c is not None and len(self.cur_fi_stack) == 1 else None
+            if ann:
+                sv = self.fresh_of_type(ann, p, module, name=st.targets[0].id)
+                p.pc.append(z3.Length(sv.t) == 0)
+                v = sv
         for t_ in st.targets:
             self.store(t_, v, p, module)
         return [("normal", p, None)]
@@ -422,7 +435,12 @@ class Verifier(ExprMixin, CallMixin, Engine):
             c = self.contracts.get(fi.key)
         if c is None:
             return None
-        return c.loops.get(self.loop_ordinal(st))
+        spec = c.loops.get(self.loop_ordinal(st))
+        if spec is None and c.reader_loops and isinstance(st, ast.While) and isinstance(st.test, ast.Name):
+            # `while reader:` - the default loop contract of the decode tree: nothing is claimed about the locals (they are
+            # havocked with their sorts), the measure is the number of octets left in that reader
+            spec = {"invariant": [], "decreases": f"len({st.test.id}._view)"}
+        return spec
 
     def assigned_names(self, body):
         names = set()
@@ -501,6 +519,8 @@ class Verifier(ExprMixin, CallMixin, Engine):
                     if isinstance(f, ast.Attribute) and f.attr in MUTATING_METHODS:
                         target(f.value)
                         continue
+                    if isinstance(f, ast.Attribute) and f.attr in PURE_VALUE_METHODS and not (isinstance(f.value, ast.Name) and obj_of(f.value.id) is not None):
+                        continue        # str / bytes methods: no effect on any object (inner calls are visited on their own)
                     fi, recv_name, c = None, None, None
                     if isinstance(f, ast.Attribute) and isinstance(f.value, ast.Name) and obj_of(f.value.id) is not None:
                         o = obj_of(f.value.id)
@@ -508,6 +528,15 @@ class Verifier(ExprMixin, CallMixin, Engine):
                         recv_name = f.value.id
                         if fi is not None:
                             c = self.contract_for(fi, o)
+                    elif isinstance(f, ast.Attribute) and isinstance(f.value, ast.Name) and f.value.id not in p.env and \
+                            (self.prog.resolve(module, f.value.id) or (None,))[0] == "class":
+                        # Class.method(...): classmethod / static use, effect described by the method's contract
+                        ci_ = self.prog.resolve(module, f.value.id)[1]
+                        fi = self.prog.find_method(ci_, f.attr)
+                        if fi is not None:
+                            c = self.contracts.get(fi.key)
+                            if fi.is_classmethod:
+                                recv_name = "__cls__"
                     elif isinstance(f, ast.Name) and f.id not in p.env:
                         r = self.prog.resolve(module, f.id)
                         if r is not None and r[0] == "func":
@@ -524,7 +553,8 @@ class Verifier(ExprMixin, CallMixin, Engine):
                     actual = {}
                     args = list(node.args)
                     if recv_name is not None and pnames:
-                        actual[pnames[0]] = ast.Name(id=recv_name, ctx=ast.Load())
+                        if recv_name != "__cls__":
+                            actual[pnames[0]] = ast.Name(id=recv_name, ctx=ast.Load())
                         pn_rest = pnames[1:]
                     else:
                         pn_rest = pnames
@@ -803,6 +833,16 @@ class Verifier(ExprMixin, CallMixin, Engine):
                         return
         e = parse_expr(hint)
         q = self.spec_path(p, p.env, old=p.old)
+        # a hint is only an aid: one that mentions a local the (refactored) code no longer has is dropped, and the
+        # obligations it was meant to help are attempted without it
+        for n in ast.walk(e):
+            if isinstance(n, ast.Name) and isinstance(n.ctx, ast.Load) and n.id not in p.env and n.id not in p.ghost and n.id not in ("old", "result", "exc", "forall", "exists", "implies", "ite", "len", "True", "False", "None") \
+                    and n.id not in self.spec_function_names and n.id not in SPEC_PRIM_NAMES and not n.id.startswith("lemma_") and self.prog.resolve(module, n.id) is None:
+                bound_vars = {a.args[0].id for a in ast.walk(e) if isinstance(a, ast.Call) and isinstance(a.func, ast.Name) and a.func.id in ("forall", "exists") and a.args and isinstance(a.args[0], ast.Name)}
+                if n.id in bound_vars:
+                    continue
+                self.skipped_hints.add(f"{name}: {hint[:60]} (no local {n.id})")
+                return
         if isinstance(e, ast.Call) and isinstance(e.func, ast.Name) and e.func.id.startswith("lemma_"):
             fi = self.spec_info(e.func.id)
             if fi is None:
@@ -862,6 +902,10 @@ class Verifier(ExprMixin, CallMixin, Engine):
                     inner = ty[ty.index("[") + 1:-1]
                     new.append({**var, pn: NONE})
                     new.append({**var, pn: self.fresh_of_type(inner, p, fi.module, pn)})
+                elif ty.startswith("oneof:"):
+                    for cn in ty[6:].split(","):
+                        r = self.prog.resolve(fi.module, cn.strip())
+                        new.append({**var, pn: VClass(r[1])})
                 elif ty.startswith("const:"):
                     q = Path(); q.spec = True
                     new.append({**var, pn: self.ev(parse_expr(ty[6:]), q, fi.module)})
